@@ -9,8 +9,9 @@
     `h.subscriber.Subscribe(ctx, h.subscribeTopic)` once per handler; the channel it gets is read by that handler's own
     `run` loop only (closure over `h`).  A message that arrives for (subscriber s, topic t) is delivered – one copy per
     subscription, like a broker does – to every subscription made for (s, t).
-  * the subscriber is wrapped by the context decorator: `addHandlerContext` sets five values, each only when non-empty
-    (`if h.name != "" { ctx = context.WithValue(…) }` …).
+  * the subscriber is wrapped by the context decorator: `addHandlerContext` sets the five values UNCONDITIONALLY
+    (`ctx = context.WithValue(ctx, handlerNameKey, h.name)` …; fix 5846d09 – an empty value hides what a previous
+    handler may have left on the context).  The behaviour before the fix is kept in `WmModel/RouteOld.lean`.
   * `handleMessage`: call the (middleware-wrapped) function; error → Nack; else `addHandlerContext(produced…)`,
     `publishProducedMessages`: none → nil; `h.publisher == nil` / `disabledPublisher` → error → Nack, nothing published;
     otherwise ONE call `h.publisher.Publish(h.publishTopic, produced…)`; then Ack.
@@ -32,8 +33,8 @@ def Ctx.get : Ctx → Key → String
   | [], _ => ""
   | (k', v) :: rest, k => if k' = k then v else Ctx.get rest k
 
-/-- `if v != "" { ctx = context.WithValue(ctx, k, v) }` -/
-def setIf (c : Ctx) (k : Key) (v : String) : Ctx := if v ≠ "" then (k, v) :: c else c
+/-- `ctx = context.WithValue(ctx, k, v)` -/
+def withValue (c : Ctx) (k : Key) (v : String) : Ctx := (k, v) :: c
 
 /-! ### configuration -/
 
@@ -51,7 +52,7 @@ structure HCfg where
 
 /-- `handler.addHandlerContext` on one message context -/
 def addHandlerContext (h : HCfg) (c : Ctx) : Ctx :=
-  setIf (setIf (setIf (setIf (setIf c .handlerName h.name) .publisherName h.pubName)
+  withValue (withValue (withValue (withValue (withValue c .handlerName h.name) .publisherName h.pubName)
     .subscriberName h.subName) .subscribeTopic h.subTopic) .publishTopic h.pubTopic
 
 /-- the five accessors of router_context.go, in the order
@@ -115,8 +116,9 @@ def produced (h : HCfg) : Shape → Option (List Ref)
   | .err => none
   | .outs rs => some ((if h.fnMute then [] else rs) ++ (List.range h.mwOut).map Ref.mw)
 
-/-- context of a produced object when `Publish` sees it: the consumed message already carries the handler context,
-    fresh objects start from an empty context; `addHandlerContext` is applied to each element of the slice -/
+/-- context of a produced object when `Publish` sees it: the consumed message already carries the handler context
+    (on top of whatever it arrived with), fresh objects start from an empty context; `addHandlerContext` is applied
+    to each element of the slice -/
 def outCtx (h : HCfg) (inCtx : Ctx) : Ref → Ctx
   | .consumed => addHandlerContext h inCtx
   | _ => addHandlerContext h []
